@@ -151,12 +151,14 @@ func RunRefcheck(t *testing.T, r *verifmc.Run, pp *Params, testdata string) {
 	}
 	// 4. crypto/ecdh (an independent implementation) on the whole core alphabet
 	kCore, uCore := pp.ScalarsCore(r.Seed()), pp.PeersCore(r.Seed())
+	m := newMemo(c, r)
+	defer m.finish(r)
 	if c.Bits == 255 {
 		type row struct{ bad string }
 		rows := make([]row, len(kCore)*len(uCore))
 		verifmc.ParallelFor(len(rows), func(j int) {
 			kk, uu := kCore[j/len(uCore)], uCore[j%len(uCore)]
-			want := c.X(kk.B, uu.B)
+			want := m.X(kk.B, uu.B)
 			priv, err := ecdh.X25519().NewPrivateKey(kk.B)
 			if err != nil {
 				rows[j].bad = "NewPrivateKey: " + err.Error()
@@ -205,7 +207,7 @@ func RunRefcheck(t *testing.T, r *verifmc.Run, pp *Params, testdata string) {
 				o = x.Mul(x, new(big.Int).ModInverse(z, c.P))
 				o.Mod(o, c.P)
 			}
-			if !bytes.Equal(c.LE(o), c.X(kk.B, uu.B)) {
+			if !bytes.Equal(c.LE(o), m.X(kk.B, uu.B)) {
 				t.Fatalf("refcheck: raw ladder and RFC ladder differ on k=%s u=%s", kk.Name, uu.Name)
 			}
 			r.Count("raw_ladder_cross_checked", 1)
@@ -253,7 +255,6 @@ func RunRefcheck(t *testing.T, r *verifmc.Run, pp *Params, testdata string) {
 		}
 	}
 	zeroOrdinary := 0
-	m := newMemo(c, nil)
 	isZero := make([]bool, len(kCore)*len(uCore))
 	verifmc.ParallelFor(len(isZero), func(j int) {
 		isZero[j] = xladder.IsZero(m.X(kCore[j/len(uCore)].B, uCore[j%len(uCore)].B))
